@@ -1,6 +1,7 @@
 """
 C17 - specification text is parsed into exactly the structure written.
 """
+import os
 import re
 
 from hypothesis import strategies as st
@@ -467,4 +468,127 @@ class NearMiss(Part):
         return {"nontrivial": changed, "classes": ["kind=" + kind, "accepted", "mode=" + case["mode"]]}
 
 
-PARTS = [RoundTrip(), NearMiss()]
+class Fuzz(Part):
+    """
+    Coverage-guided fuzzing (atheris on libFuzzer) of the same five parsers with the same losslessness oracle: two
+    campaigns per run, one from an empty corpus and one seeded with a few valid renderings plus a token dictionary.
+    """
+    name = "fuzz"
+    rule = ("atheris/libFuzzer campaigns over vf/fuzz_c17.py (first byte selects the grammar, the rest is the text; the parser must "
+            "raise or the accepted text must be lossless): one from an empty corpus, one from a seed corpus of valid renderings with "
+            "a token dictionary. Evaluations = executions reported by libFuzzer; non-trivial = distinct final-corpus inputs (coverage-"
+            "distinct by construction) that the parser ACCEPTS, re-parsed and re-checked here. Thorough tier only (the instrumented "
+            "target needs 30-60 s to start).")
+
+    SEEDS = ["Z[m, n] = A[k, m] * B[k, n]", "Z[] = take(A[k], b, 1) + C[-2 * k + m]", "uniform_occupancy(A.16)", "nway_shape(N0)",
+             "flatten()", "follow(Q)", "(M, K0)", "K", "K1.coord", "M.pos", "PE[0..15]", "System"]
+    TOKENS = ["take(", "uniform_shape(", "uniform_occupancy(", "nway_shape(", "flatten(", "follow(", "[0..", ".pos", ".coord",
+              " * ", " + ", ", ", "] = ", "[]", "-1 * "]
+
+    def budget(self, tier):
+        return {"quick": dict(examples=15000, shards=1, seconds=100), "thorough": dict(examples=600000, shards=1, seconds=900)}[tier]
+
+    def strategy(self, tier):
+        return st.just(None)
+
+    def describe(self, case):
+        return case
+
+    def run_case(self, case):
+        # replay of a fuzz-found input goes through the near-miss oracle
+        return NearMiss().run_case(case)
+
+    def custom_search(self, tier, seed, res, deadline, seen_sigs):
+        import shutil
+        import subprocess
+        import sys
+        import tempfile
+        from ..runner import VERIF
+        if getattr(self, "_done", False) or tier == "quick":
+            # (start-up of the instrumented target takes 30-60 s: the campaigns belong to the thorough tier)
+            return None
+        self._done = True
+        sys.path.insert(0, VERIF)
+        runs = self.budget(tier)["examples"]
+        work = tempfile.mkdtemp(prefix="vf-fuzz-", dir="/dev/shm" if os.path.isdir("/dev/shm") else None)
+        found = None
+        try:
+            for campaign in ("empty", "seeded"):
+                corpus = os.path.join(work, campaign)
+                art = os.path.join(work, campaign + "-artifacts")
+                os.makedirs(corpus)
+                os.makedirs(art)
+                args = [sys.executable, "-m", "vf.fuzz_c17", "-runs=%d" % (runs // 2), "-seed=%d" % (seed % 2147483647 or 1),
+                        "-max_len=64", "-artifact_prefix=" + art + "/", "-print_final_stats=1"]
+                if campaign == "seeded":
+                    for i, text in enumerate(self.SEEDS):
+                        kind = ["einsum", "einsum", "directive", "directive", "directive", "directive", "rank-tuple", "rank-tuple",
+                                "stamp", "stamp", "level", "level"][i]
+                        with open(os.path.join(corpus, "seed%02d" % i), "wb") as f:
+                            f.write(bytes([["einsum", "directive", "rank-tuple", "stamp", "level"].index(kind)]) + text.encode())
+                    dpath = os.path.join(work, "dict.txt")
+                    with open(dpath, "w") as f:
+                        for t in self.TOKENS:
+                            f.write('"%s"\n' % t.replace("\\", "\\\\").replace('"', '\\"'))
+                    args.append("-dict=" + dpath)
+                args.append(corpus)
+                env = dict(os.environ, PYTHONHASHSEED="0", PYTHONDONTWRITEBYTECODE="1")
+                try:
+                    p = subprocess.run(args, cwd=VERIF, env=env, capture_output=True, text=True,
+                                       timeout=max(120, self.budget(tier)["seconds"]))
+                    out = p.stderr + p.stdout
+                except subprocess.TimeoutExpired as e:
+                    out = (e.stderr or b"").decode("latin-1") if isinstance(e.stderr, bytes) else (e.stderr or "")
+                    res.budget_hit = True
+                import re
+                if "No module named 'atheris'" in out or "ModuleNotFoundError" in out:
+                    res.classes["fuzz-unavailable"] += 1
+                    break
+                m = re.findall(r"stat::number_of_executed_units:\s*(\d+)", out) or re.findall(r"Done (\d+) runs", out)
+                res.evaluations += int(m[-1]) if m else 0
+                res.classes["fuzz-campaign=" + campaign] += 1
+                cov = re.findall(r"cov: (\d+)", out)
+                if cov:
+                    res.classes["fuzz-cov-%s=%s" % (campaign, cov[-1])] += 1
+                # crash artifacts = oracle failures
+                from .. import fuzz_decode
+                for fn in sorted(os.listdir(art)):
+                    with open(os.path.join(art, fn), "rb") as f:
+                        kind, text = fuzz_decode.decode(f.read())
+                    if kind is None:
+                        continue
+                    case = {"kind": kind, "text": text, "origin": "", "mode": "fuzz:" + campaign}
+                    try:
+                        NearMiss().run_case(case)
+                    except Violation as v:
+                        if v.sig not in seen_sigs and found is None:
+                            v.case, v.part = case, "near-miss"
+                            found = v
+                # accepted corpus entries: distinct, non-trivial; re-checked with the oracle here
+                for fn in sorted(os.listdir(corpus)):
+                    with open(os.path.join(corpus, fn), "rb") as f:
+                        kind, text = fuzz_decode.decode(f.read())
+                    if kind is None or "\n" in text:
+                        continue
+                    case = {"kind": kind, "text": text, "origin": "", "mode": "fuzz:" + campaign}
+                    try:
+                        info = NearMiss().run_case(case)
+                    except Violation as v:
+                        if v.sig not in seen_sigs and found is None:
+                            v.case, v.part = case, "near-miss"
+                            found = v
+                        continue
+                    if "accepted" in info["classes"]:
+                        from .. import spec as S_
+                        h = S_.sha(case)
+                        if h not in res.nontrivial:
+                            res.nontrivial.add(h)
+                            res.classes["fuzz-accepted-kind=" + kind] += 1
+                            if len(res.samples) < 3:
+                                res.samples.append(case)
+        finally:
+            shutil.rmtree(work, ignore_errors=True)
+        return found
+
+
+PARTS = [RoundTrip(), NearMiss(), Fuzz()]
